@@ -30,7 +30,11 @@ for d in sorted(glob.glob("/verif/seeded/*/")):
     m = json.load(open(mf))
     name = os.path.basename(d.rstrip("/"))
     key = "seeded/%s/patch.diff" % name
-    r = res.get(key, {}).get("result", "not run")
+    r = res.get(key, {}).get("result")
+    if r is None:
+        # not part of the last sweep: the outcome recorded when its round was processed (NOTES.json)
+        note = notes.get(name, "")
+        r = "not run" if not note else ("NOT CAUGHT (see note)" if note.startswith("NOT") else "CAUGHT (when its round was processed)")
     out.append("| %s | %s | %s | %s | %s |" % (name, short(m.get("summary", "")).replace("|", "/"),
                short(m.get("needs_to_manifest", ""), 260).replace("|", "/"), r, notes.get(name, "").replace("|", "/")))
 out.append("")
